@@ -143,22 +143,6 @@ def nested_interrupt_resume(case, msg, observed=None):
     return "/" in (case.get("node") or "") and "." in (case.get("key") or "") and "pauses at the same interrupt again" in (msg or "")
 
 
-def nested_pause_sibling_lost(case, msg, observed=None):
-    """A NESTED graph pauses while ordinary siblings of its node run in the same superstep: the siblings' outputs are dropped from
-    the PAUSED result (the runner attaches the pre-step state).  Only that: the pause lies inside a nested-graph node of the top
-    level, and the node whose output is missing is a plain function node beside it."""
-    import re
-    if not isinstance(case, dict) or not isinstance(observed, dict) or "is missing from the paused result (computed, thrown away" not in (msg or ""):
-        return False
-    m = re.match(r"node (\S+) ran in the run that paused at (\S+) ", msg)
-    g = case.get("graph") or {}
-    if not m or "/" not in m.group(2) or (observed.get("pause") or {}).get("node") != m.group(2):
-        return False
-    top = {n["name"]: n for n in g.get("nodes", [])}
-    holder, sib = top.get(m.group(2).split("/")[0]), top.get(m.group(1))
-    return holder is not None and holder.get("kind") == "graph" and sib is not None and sib.get("kind") == "func"
-
-
 def viz_shared_producer_in_container(case, msg, observed=None):
     """A drawing is unfaithful only because, of SEVERAL producers of one output name inside an expanded nested graph, just one
     is drawn feeding a consumer outside that graph (the renderer resolves 'the' internal producer of a container output):
@@ -248,7 +232,7 @@ def self_first_body_overrun(case, msg, observed=None):
     return case.get("stages", 0) >= 1 and case.get("limit", 99) <= case.get("stages", 0) and "extra executions before the gate's first decision" in (msg or "")
 
 
-MATCHERS = {f.__name__: f for f in (nested_pause_sibling_lost, self_first_body_overrun, equal_value_signal, mermaid_id_clash, viz_shared_producer_in_container, nested_interrupt_resume, equal_but_distinct_default, stop_iteration_async, waiter_with_edge_default, ambiguous_cycle_entry, empty_map_silent, viz_renamed_boundary, interrupt_handler_wrapped, interrupt_with_edge_default, bound_output_name)}
+MATCHERS = {f.__name__: f for f in (self_first_body_overrun, equal_value_signal, mermaid_id_clash, viz_shared_producer_in_container, nested_interrupt_resume, equal_but_distinct_default, stop_iteration_async, waiter_with_edge_default, ambiguous_cycle_entry, empty_map_silent, viz_renamed_boundary, interrupt_handler_wrapped, interrupt_with_edge_default, bound_output_name)}
 
 
 def classify(ctx, case, msg, observed=None):
